@@ -94,6 +94,16 @@ def run_case(case, ctx):
                     and c.type(u) != "bb_output"]
             if cand:
                 c.graph.add_edge(r.choice(cand), v)
+        elif gates and r.random() < 0.5 and c.graph.number_of_edges():
+            # move one edge: same number of nodes and edges, different graph (possibly cyclic now)
+            u, v = r.choice(sorted(c.graph.edges))
+            tgt = [g for g in gates if len(c.fanin(g)) >= 1]
+            src = [n for n in ns if c.type(n) in ("and", "nand", "or", "nor", "xor", "xnor", "buf", "not")]
+            if c.type(v) not in ("buf", "not", "bb_input") and len(c.fanin(v)) >= 2 and tgt and src:
+                a, b = r.choice(src), r.choice(tgt)
+                if a != b and not c.graph.has_edge(a, b):
+                    c.graph.remove_edge(u, v)
+                    c.graph.add_edge(a, b)
         elif c.graph.number_of_edges():
             u, v = r.choice(sorted(c.graph.edges))
             if c.type(v) not in ("buf", "not", "bb_input") and len(c.fanin(v)) >= 2:
